@@ -1363,7 +1363,7 @@ def mk_net_drms(
         xyz = bset_if[xyz]
     else:
         dof_indep = 123456
-        xyz = np.arange(6)
+        xyz = bset_if
 
     # add center point for RBE3
     if isinstance(ref, numbers.Integral):
